@@ -16,6 +16,10 @@ in the mechanism that implements the property breaks the property for the inputs
       matters by the per-property Deferred-chain rules; here: addCallback/addErrback given the
       *result* of calling a self method taking the event (f(x) instead of f) - a call executed
       at attach time
+  X6  a name read in a function that nothing binds: not a local, not a name of an enclosing function, not a
+      module-level name or import, not a builtin (symtable over the module text) - NameError on every execution
+  X7  a local read at a statement that no definition of it reaches (reaching definitions over the function's CFG;
+      names with binding forms the CFG does not model are skipped) - UnboundLocalError on every execution
 A tiny embedded positive example is analysed on every run so that the patterns cannot go blind.
 """
 import ast
@@ -30,7 +34,116 @@ def f(self, items, d):
     x = ', '.join(a, b)
     if kind is 'x':
         pass
+    print(zork_undefined)
+    use(late)
+    late = 1
 '''
+
+
+def unbound_globals(module_src, filename='<module>'):
+    """[(scope lineno, name)] for names read in function scopes of the module that resolve to a global nothing defines"""
+    import symtable
+    import builtins
+    try:
+        top = symtable.symtable(module_src, filename, 'exec')
+    except SyntaxError:
+        return None
+    defined = set(dir(builtins)) | set(('__file__', '__name__', '__doc__', '__package__', '__spec__', '__loader__', '__builtins__', '__path__', '__class__'))
+    star = 'import *' in module_src
+    for sym in top.get_symbols():
+        if sym.is_assigned() or sym.is_imported() or sym.is_namespace() or sym.is_parameter():
+            defined.add(sym.get_name())
+    out = []
+
+    def walk(tab):
+        for ch in tab.get_children():
+            if ch.get_type() == 'function':
+                for sym in ch.get_symbols():
+                    if sym.is_referenced() and sym.is_global() and not sym.is_assigned() and sym.get_name() not in defined:
+                        out.append((ch.get_lineno(), sym.get_name()))
+            walk(ch)
+        # names a function declares global and assigns define the module name too
+    def globals_assigned(tab):
+        for ch in tab.get_children():
+            for sym in ch.get_symbols():
+                if sym.is_declared_global() and sym.is_assigned():
+                    defined.add(sym.get_name())
+            globals_assigned(ch)
+    globals_assigned(top)
+    if star:
+        return []
+    walk(top)
+    return out
+
+
+def _own_nodes(fn):
+    """nodes of fn's own scope (nested functions/lambdas/classes not entered)"""
+    stack = list(fn.body) if isinstance(fn.body, list) else [fn.body]
+    while stack:
+        n = stack.pop()
+        yield n
+        if isinstance(n, (ast.FunctionDef, ast.AsyncFunctionDef, ast.Lambda, ast.ClassDef)):
+            continue
+        stack.extend(ast.iter_child_nodes(n))
+
+
+def never_defined_locals(unit):
+    """[(ast stmt/test, name)] local reads that no definition reaches"""
+    from .common import cfg_of, reaching_defs, node_assigns, node_asts
+    fn = unit.node
+    if not isinstance(fn, (ast.FunctionDef, ast.AsyncFunctionDef)):
+        return []
+    own = list(_own_nodes(fn))
+    if any(isinstance(n, (ast.Delete, ast.Global, ast.Nonlocal, ast.NamedExpr)) for n in own):
+        return []
+    comp_bound = set(x.id for n in own if isinstance(n, ast.comprehension) for x in ast.walk(n.target) if isinstance(x, ast.Name))
+    stores = {}
+    for n in own:
+        if isinstance(n, ast.Name) and isinstance(n.ctx, ast.Store) and n.id not in comp_bound:
+            stores[n.id] = stores.get(n.id, 0) + 1
+        elif isinstance(n, (ast.Import, ast.ImportFrom)):
+            for al in n.names:
+                stores[(al.asname or al.name).split('.')[0]] = 10 ** 6      # not modelled: skip these names
+        elif isinstance(n, ast.ExceptHandler) and n.name:
+            stores[n.name] = 10 ** 6                                           # unbound again after the handler: skip
+        elif isinstance(n, (ast.MatchAs, ast.MatchStar)) and getattr(n, 'name', None):
+            stores[n.name] = 10 ** 6
+    params = _params(fn)
+    g = cfg_of(unit)
+    out = []
+    for name, cnt in stores.items():
+        if name in params or name in comp_bound:
+            continue
+        defs = [n for n in g.nodes if node_assigns(n, name)]
+        # every store of the name is modelled by a CFG node (dead code excluded: compare on all nodes)
+        modelled = 0
+        for n in defs:
+            roots = [n.ast.target] if n.kind == 'iter' else [i.optional_vars for i in n.ast.items if i.optional_vars is not None] if n.kind == 'with' else \
+                (n.ast.targets if isinstance(n.ast, ast.Assign) else [n.ast.target] if isinstance(n.ast, (ast.AugAssign, ast.AnnAssign)) else [])
+            modelled += sum(1 for r in roots for x in ast.walk(r) if isinstance(x, ast.Name) and isinstance(x.ctx, ast.Store) and x.id == name)
+        if modelled != cnt:
+            continue
+        for n in g.live:
+            if n.kind not in ('stmt', 'test', 'iter', 'with'):
+                continue
+            reads = False
+            for a in node_asts(n):
+                stack = [a]
+                while stack:
+                    x = stack.pop()
+                    if isinstance(x, (ast.Lambda, ast.FunctionDef, ast.AsyncFunctionDef, ast.ClassDef)):
+                        continue
+                    if isinstance(x, ast.Name) and x.id == name and isinstance(x.ctx, ast.Load):
+                        reads = True
+                    stack.extend(ast.iter_child_nodes(x))
+            if isinstance(n.ast, ast.AugAssign) and isinstance(n.ast.target, ast.Name) and n.ast.target.id == name:
+                reads = True
+            if not reads:
+                continue
+            rd = reaching_defs(g, n, name)
+            if rd and all(d is g.entry for d in rd):
+                out.append((n.ast, name))
+    return out
 
 
 def _params(fn):
@@ -124,6 +237,31 @@ def definite_faults(fn_node):
     return out
 
 
+class _PosUnit(object):
+    """just enough of a Unit for the CFG builder (the embedded positive example)"""
+    def __init__(self, node):
+        self.node = node
+        self.body = node.body
+        self.children = []
+        self.parent = None
+        self.cls = None
+        self.owner_cls = None
+        self.name = self.short = self.qual = node.name
+        self.params = [a.arg for a in node.args.args]
+        self.module = None
+
+    def is_inline_callbacks(self):
+        return False
+
+
+def _descendants(u):
+    out = []
+    for c in u.children:
+        out.append(c)
+        out.extend(_descendants(c))
+    return out
+
+
 def check(run, rid='R-X'):
     """apply the patterns to every function the property's rules touched (and functions nested in them)"""
     quals = set(run.units_analysed)
@@ -137,6 +275,7 @@ def check(run, rid='R-X'):
             q = q.parent
     seen = set()
     k = 0
+    globals_by_module = {}
     for u in units:
         if not isinstance(u.node, (ast.FunctionDef, ast.AsyncFunctionDef, ast.Lambda)):
             continue
@@ -153,6 +292,19 @@ def check(run, rid='R-X'):
         if nested:
             continue
         k += 1
+        ug = globals_by_module.get(u.module.name)
+        if ug is None:
+            ug = globals_by_module[u.module.name] = unbound_globals(u.module.src, u.module.rel) or []
+        lo, hi = u.node.lineno, getattr(u.node, 'end_lineno', u.node.lineno)
+        for ln, nm in ug:
+            if lo <= ln <= hi:
+                at = next((x for x in ast.walk(u.node) if isinstance(x, ast.Name) and x.id == nm), u.node)
+                run.ob(rid, u, at, 'no definite-fault construct (X6)', False, slot='X6@%s:%s' % (u.short, nm),
+                       message='%s: reads %s, which nothing binds (no local, enclosing, module-level or builtin name): NameError whenever this line runs' % (u.short, nm))
+        for sub in [u] + _descendants(u):
+            for at, nm in never_defined_locals(sub):
+                run.ob(rid, sub, at, 'no definite-fault construct (X7)', False, slot='X7@%s:%s' % (sub.short, nm),
+                       message='%s: reads the local %s at a point no assignment of it reaches: UnboundLocalError whenever this line runs' % (sub.short, nm))
         for node, code, msg in definite_faults(u.node):
             run.ob(rid, u, node, 'no definite-fault construct (%s)' % code, False, slot='%s@%s' % (code, u.short), message='%s: %s' % (u.short, msg))
         run.ob(rid, u, u.node, 'scanned for definite-fault constructs', True)
@@ -161,4 +313,9 @@ def check(run, rid='R-X'):
     codes = sorted(set(c for _, c, _ in definite_faults(pos)))
     if codes != ['X1', 'X2', 'X4']:
         run.undecide(rid, '-', 'positive example no longer matched: %s' % codes)
+    if 'zork_undefined' not in [nm for _, nm in unbound_globals(POSITIVE) or []]:
+        run.undecide(rid, '-', 'positive example for X6 no longer matched')
+    punit = _PosUnit(pos)
+    if [nm for _, nm in never_defined_locals(punit)] != ['late']:
+        run.undecide(rid, '-', 'positive example for X7 no longer matched')
     run.floor(rid, 'functions scanned', k, 1)
